@@ -119,6 +119,7 @@ Applicable(c, r) ==
     [] c = "Succeeds"        -> r.expect_solved = TRUE
     [] c = "PlantedValid"    -> r.proutes # <<>> /\ r.cls \in FDCls /\ r.ign = <<>>
     [] c = "NoCrash"         -> TRUE
+    [] c = "NoCrashPlain"    -> TRUE
     [] OTHER -> FALSE
 
 ConsAsEdges(r, c) ==   \* a constraint of the record as a sequence of user-graph elements
@@ -178,8 +179,11 @@ Holds(c, r) ==
           /\ \A i \in 1..Len(r.proutes) : IsRoute(g, Starts(r), Ends(r), r.proutes[i])
           /\ \A x \in Required(r) :
                 SumSeq([i \in 1..Len(r.proutes) |-> w[i] * Uses(r, x, r.proutes[i])]) = F(r)[x]
-    [] c = "NoCrash"    -> /\ r.ctor_exc \in {"none", "ValueError"} /\ r.solve_exc \in {"none", "ValueError"}
-                           /\ r.sol_exc \in {"none", "Exception"} /\ r.process_exit = FALSE
+    [] c = "NoCrash"    -> /\ (r.ctor_exc = "none" \/ (r.ctor_exc = "ValueError" /\ r.documented_incompat = TRUE))
+                           /\ (r.solve_exc = "none" \/ (r.solve_exc = "ValueError" /\ r.documented_incompat = TRUE))
+                           /\ r.sol_exc \in {"none", "Exception"} /\ r.process_exit = FALSE /\ r.timeout = FALSE
+    [] c = "NoCrashPlain" -> /\ r.ctor_exc \in {"none", "ValueError"} /\ r.solve_exc \in {"none", "ValueError"}
+                             /\ r.sol_exc \in {"none", "Exception"} /\ r.process_exit = FALSE
     [] OTHER -> TRUE
 
 ClausesOf(p) ==
@@ -191,6 +195,8 @@ ClausesOf(p) ==
                      "ConstraintsHonoured", "ObjIsCount", "OneWeightPerRoute"}
     [] p = "C04" -> {"Succeeds", "PlantedValid", "FDExact", "NodesOfG", "EdgesOfG", "StartsOK", "EndsOK",
                      "ConstraintsHonoured", "ObjIsCount", "OneWeightPerRoute"}
+    [] p = "C05" -> {"NoCrash"}
+    [] p = "C11" -> {"NodesOfG", "EdgesOfG", "StartsOK", "EndsOK", "SimpleIfDAG", "NoCrashPlain"}
     [] p = "C07" -> {"LAEErrors", "LAEObjective", "SelfCheckAccepts", "ExactlyK", "OneWeightPerRoute"}
     [] p = "C08" -> {"Succeeds", "MPEInequality", "MPEObjective", "OneSlackPerRoute", "OneWeightPerRoute", "NonNegative",
                      "NodesOfG", "EdgesOfG", "StartsOK", "EndsOK"}
